@@ -1,5 +1,5 @@
 //! Conformance drivers for the DNS server properties (C36-C39).
-//! Subcommands: c36, c37, c38
+//! Subcommands: c36, c37, c38, c39 (crash images), c39e (eviction)
 use serde::{Deserialize, Serialize};
 use vh::io::{Args, NdjsonOut, read_ndjson};
 
@@ -9,6 +9,8 @@ fn main() {
         "c36" => c36::run(&args),
         "c37" => c37::run(&args),
         "c38" => c38::run(&args),
+        "c39" => c39::run_crash(&args),
+        "c39e" => c39::run_evict(&args),
         other => {
             eprintln!("unknown subcommand {other}");
             std::process::exit(2);
@@ -946,5 +948,452 @@ mod c36 {
         }
         out.finish();
         env(rt.block_on(server.shutdown()), "server shutdown");
+    }
+}
+
+/// C39: (a) run TLC-generated workloads on the real store over a recording redb `StorageBackend`,
+/// cut the backend's operation log after every operation, reopen every image with the real store and
+/// project its content; (b) eviction workloads with timestamps on both sides of the retention cut-off.
+mod c39 {
+    use std::{
+        collections::BTreeMap,
+        sync::{Arc, Mutex},
+        time::{Duration, Instant},
+    };
+
+    use iroh_dns::verif;
+    use iroh_dns_server::verif_hooks::{StoreDump, StoreOptions, VerifZoneStore};
+    use redb::{Database, StorageBackend};
+
+    use super::{common::*, *};
+
+    #[derive(Clone, Debug)]
+    enum Op {
+        Write(u64, Vec<u8>),
+        SetLen(u64),
+        Sync,
+        Sent,
+        Acked,
+        Opened,
+    }
+
+    /// In-memory storage that logs every mutating backend call.
+    #[derive(Debug)]
+    struct RecBackend {
+        data: Mutex<Vec<u8>>,
+        log: Option<Arc<Mutex<Vec<Op>>>>,
+    }
+
+    impl RecBackend {
+        fn push(&self, op: Op) {
+            if let Some(l) = &self.log {
+                l.lock().unwrap().push(op);
+            }
+        }
+    }
+
+    impl StorageBackend for RecBackend {
+        fn len(&self) -> Result<u64, std::io::Error> {
+            Ok(self.data.lock().unwrap().len() as u64)
+        }
+        fn read(&self, offset: u64, out: &mut [u8]) -> Result<(), std::io::Error> {
+            let d = self.data.lock().unwrap();
+            let (o, n) = (offset as usize, out.len());
+            if o + n > d.len() {
+                return Err(std::io::Error::new(std::io::ErrorKind::UnexpectedEof, "read past end"));
+            }
+            out.copy_from_slice(&d[o..o + n]);
+            Ok(())
+        }
+        fn set_len(&self, len: u64) -> Result<(), std::io::Error> {
+            self.data.lock().unwrap().resize(len as usize, 0);
+            self.push(Op::SetLen(len));
+            Ok(())
+        }
+        fn sync_data(&self) -> Result<(), std::io::Error> {
+            self.push(Op::Sync);
+            Ok(())
+        }
+        fn write(&self, offset: u64, data: &[u8]) -> Result<(), std::io::Error> {
+            let mut d = self.data.lock().unwrap();
+            let o = offset as usize;
+            if o + data.len() > d.len() {
+                d.resize(o + data.len(), 0);
+            }
+            d[o..o + data.len()].copy_from_slice(data);
+            drop(d);
+            self.push(Op::Write(offset, data.to_vec()));
+            Ok(())
+        }
+    }
+
+    fn apply(image: &mut Vec<u8>, op: &Op) {
+        match op {
+            Op::Write(off, data) => {
+                let o = *off as usize;
+                if o + data.len() > image.len() {
+                    image.resize(o + data.len(), 0);
+                }
+                image[o..o + data.len()].copy_from_slice(data);
+            }
+            Op::SetLen(l) => image.resize(*l as usize, 0),
+            _ => {}
+        }
+    }
+
+    #[derive(Deserialize)]
+    struct P {
+        ts: u64,
+        pl: u64,
+    }
+    #[derive(Deserialize)]
+    struct Msg {
+        op: String,
+        k: String,
+        ts: u64,
+        pl: u64,
+        #[serde(default)]
+        flag: bool,
+        #[serde(default)]
+        got: Option<P>,
+    }
+    #[derive(Deserialize)]
+    struct Case {
+        b: usize,
+        msgs: Vec<Msg>,
+    }
+    #[derive(Serialize)]
+    struct Cut {
+        from: usize,
+        to: usize,
+        sent: usize,
+        acked: usize,
+        /// client position at the last sync before the cut (subset images only)
+        sent0: usize,
+        acked0: usize,
+        subset: bool,
+        state: String,
+    }
+    #[derive(Serialize)]
+    struct CrashOut {
+        case: usize,
+        ok: bool,
+        step: usize,
+        what: String,
+        exp: String,
+        got: String,
+        backend_ops: usize,
+        reopened: usize,
+        cuts: Vec<Cut>,
+    }
+
+    const TS_BASE: u64 = 1_700_000_000_000_000;
+
+    fn opts(b: usize, eviction: Duration, interval: Duration, batch_time: Duration) -> StoreOptions {
+        StoreOptions { max_batch_size: b, max_batch_time: batch_time, eviction, eviction_interval: interval }
+    }
+
+    fn wait_scan_done() {
+        let t0 = Instant::now();
+        while !verif::events().iter().any(|e| e.label == "dnssrv.evict.scan_done") {
+            if t0.elapsed() > Duration::from_secs(20) {
+                eprintln!("environment: eviction task did not finish its first scan");
+                std::process::exit(3);
+            }
+            std::thread::sleep(Duration::from_micros(100));
+        }
+    }
+
+    /// Canonical text of a store content: `k1=ts.pl,k2=0.0|ts@k1,...` (keys and entries sorted).
+    fn project(dump: &StoreDump, keys: &BTreeMap<String, [u8; 32]>, built: &BTreeMap<Vec<u8>, (String, u64, u64)>) -> String {
+        let name_of = |kb: &[u8; 32]| keys.iter().find(|(_, v)| *v == kb).map(|(n, _)| n.clone()).unwrap_or_else(|| "?".into());
+        let mut pk: BTreeMap<String, String> = keys.keys().map(|k| (k.clone(), "0.0".to_string())).collect();
+        for (kb, row) in &dump.packets {
+            let k = name_of(kb);
+            let v = match row {
+                Err(_) => "!".to_string(),
+                Ok(bytes) => match built.get(bytes) {
+                    Some((bk, ts, pl)) if *bk == k => format!("{ts}.{pl}"),
+                    _ => "?".to_string(),
+                },
+            };
+            pk.insert(k, v);
+        }
+        let mut ix: Vec<String> = dump
+            .index
+            .iter()
+            .map(|(t, kb)| {
+                let ts = if *t > TS_BASE && *t < TS_BASE + 1000 { (t - TS_BASE).to_string() } else { "?".into() };
+                format!("{ts}@{}", name_of(kb))
+            })
+            .collect();
+        ix.sort();
+        let pks: Vec<String> = pk.iter().map(|(k, v)| format!("{k}={v}")).collect();
+        format!("{}|{}", pks.join(","), ix.join(","))
+    }
+
+    fn reopen(rt: &tokio::runtime::Runtime, image: &[u8], keys: &BTreeMap<String, [u8; 32]>, built: &BTreeMap<Vec<u8>, (String, u64, u64)>) -> String {
+        let backend = RecBackend { data: Mutex::new(image.to_vec()), log: None };
+        let db = match Database::builder().create_with_backend(backend) {
+            Ok(db) => db,
+            Err(e) => return format!("open-failed: {e}"),
+        };
+        let res = rt.block_on(async {
+            let store = VerifZoneStore::with_database(db, opts(1024, Duration::from_micros(u64::MAX), Duration::from_secs(3600), Duration::from_millis(5)))
+                .map_err(|e| format!("store-open-failed: {e:#}"))?;
+            let dump = store.dump().await.map_err(|e| format!("dump-failed: {e:#}"))?;
+            Ok::<_, String>((store, dump))
+        });
+        match res {
+            Err(e) => e,
+            Ok((store, dump)) => {
+                let s = project(&dump, keys, built);
+                drop(store);
+                s
+            }
+        }
+    }
+
+    fn crash_case(rt: &tokio::runtime::Runtime, case: usize, c: &Case, subsets: usize) -> CrashOut {
+        let seed = seed();
+        let mut out = CrashOut { case, ok: true, step: 0, what: String::new(), exp: String::new(), got: String::new(), backend_ops: 0, reopened: 0, cuts: vec![] };
+        let knames = ["k1", "k2"];
+        let secrets: BTreeMap<String, iroh_base::SecretKey> = knames.iter().map(|n| (n.to_string(), secret(seed, case as u64, n))).collect();
+        let keys: BTreeMap<String, [u8; 32]> = secrets.iter().map(|(n, s)| (n.clone(), *s.public().as_bytes())).collect();
+        let mut built: BTreeMap<Vec<u8>, (String, u64, u64)> = BTreeMap::new();
+        let mut packets = BTreeMap::new();
+        for k in knames {
+            for ts in 1..=3u64 {
+                for pl in 1..=3u64 {
+                    let z = secrets[k].public().to_z32();
+                    let dns = dns_payload(&[Rec { zl: k.into(), rel: "_iroh".into(), ty: "TXT".into(), v: pl }], &|_| z.clone());
+                    let p = signed_packet(&secrets[k], TS_BASE + ts, &dns);
+                    built.insert(p.as_bytes().to_vec(), (k.to_string(), ts, pl));
+                    packets.insert((k.to_string(), ts, pl), p);
+                }
+            }
+        }
+        let log = Arc::new(Mutex::new(Vec::<Op>::new()));
+        let backend = RecBackend { data: Mutex::new(Vec::new()), log: Some(log.clone()) };
+        verif::take_events();
+        verif::record(true);
+        let db = Database::builder().create_with_backend(backend).expect("create database on recording backend");
+        let store = rt.block_on(async {
+            VerifZoneStore::with_database(db, opts(c.b, Duration::from_micros(u64::MAX), Duration::from_secs(3600), Duration::from_secs(3600))).expect("open store")
+        });
+        // the eviction task's first (and only) snapshot request must not land inside a batch
+        wait_scan_done();
+        verif::record(false);
+        log.lock().unwrap().push(Op::Opened);
+        for (i, m) in c.msgs.iter().enumerate() {
+            log.lock().unwrap().push(Op::Sent);
+            let mismatch = rt.block_on(async {
+                if m.op == "upsert" {
+                    let f = store.insert(packets[&(m.k.clone(), m.ts, m.pl)].clone()).await.map_err(|e| ("insert failed".to_string(), "Ok".to_string(), format!("{e:#}")))?;
+                    if f != m.flag {
+                        return Err(("insert flag".to_string(), m.flag.to_string(), f.to_string()));
+                    }
+                } else {
+                    let g = store.get_signed_packet(&keys[&m.k]).await.map_err(|e| ("get failed".to_string(), "Ok".to_string(), format!("{e:#}")))?;
+                    let got = match &g {
+                        None => "0.0".to_string(),
+                        Some(p) => built.get(p.as_bytes()).map(|(_, ts, pl)| format!("{ts}.{pl}")).unwrap_or("?".into()),
+                    };
+                    let exp = m.got.as_ref().map(|p| format!("{}.{}", p.ts, p.pl)).unwrap_or("0.0".into());
+                    if got != exp {
+                        return Err(("get result".to_string(), exp, got));
+                    }
+                }
+                Ok(())
+            });
+            log.lock().unwrap().push(Op::Acked);
+            if let Err((what, exp, got)) = mismatch {
+                out.ok = false;
+                out.step = i;
+                out.what = what;
+                out.exp = exp;
+                out.got = got;
+                break;
+            }
+        }
+        drop(store); // cancel: the open batch is committed, both threads are joined
+        let ops = log.lock().unwrap().clone();
+        out.backend_ops = ops.iter().filter(|o| matches!(o, Op::Write(..) | Op::SetLen(_) | Op::Sync)).count();
+        let opened = ops.iter().position(|o| matches!(o, Op::Opened)).expect("opened marker");
+        let mut image = Vec::new();
+        let (mut sent, mut acked) = (0usize, 0usize);
+        let (mut sent0, mut acked0, mut last_sync, mut synced_image) = (0usize, 0usize, 0usize, Vec::new());
+        let mut rng = seed ^ (case as u64).wrapping_mul(0x9E37_79B9);
+        let mut next = move || {
+            rng ^= rng << 13;
+            rng ^= rng >> 7;
+            rng ^= rng << 17;
+            rng
+        };
+        let mut last_state: Option<String> = None;
+        for (p, op) in ops.iter().enumerate() {
+            let changed = matches!(op, Op::Write(..) | Op::SetLen(_));
+            apply(&mut image, op);
+            match op {
+                Op::Sent => sent += 1,
+                Op::Acked => acked += 1,
+                Op::Sync => {
+                    sent0 = sent;
+                    acked0 = acked;
+                    last_sync = p;
+                    synced_image = image.clone();
+                }
+                _ => {}
+            }
+            if p < opened || !matches!(op, Op::Write(..) | Op::SetLen(_) | Op::Sync) {
+                continue;
+            }
+            // crash right after operation p: everything issued so far reached the disk
+            let state = match (&last_state, changed) {
+                (Some(s), false) => s.clone(),
+                _ => {
+                    out.reopened += 1;
+                    reopen(rt, &image, &keys, &built)
+                }
+            };
+            last_state = Some(state.clone());
+            match out.cuts.last_mut() {
+                Some(c) if !c.subset && c.state == state && c.sent == sent && c.acked == acked => c.to = p,
+                _ => out.cuts.push(Cut { from: p, to: p, sent, acked, sent0: sent, acked0: acked, subset: false, state }),
+            }
+            // crash with only a subset of the not yet synced writes on disk
+            for _ in 0..subsets {
+                let pending: Vec<&Op> = ops[last_sync + 1..=p].iter().filter(|o| matches!(o, Op::Write(..) | Op::SetLen(_))).collect();
+                if pending.len() < 2 || last_sync < opened {
+                    break;
+                }
+                let mut img = synced_image.clone();
+                for o in pending {
+                    if matches!(o, Op::SetLen(_)) || next() % 2 == 0 {
+                        apply(&mut img, o);
+                    }
+                }
+                out.reopened += 1;
+                let state = reopen(rt, &img, &keys, &built);
+                out.cuts.push(Cut { from: p, to: p, sent, acked, sent0, acked0, subset: true, state });
+            }
+        }
+        out
+    }
+
+    pub fn run_crash(args: &Args) {
+        let cases: Vec<Case> = read_ndjson(&args.path("in"));
+        let subsets = args.num("subsets", 0) as usize;
+        let mut out = NdjsonOut::create(&args.path("out"));
+        let rt = tokio::runtime::Builder::new_multi_thread().worker_threads(4).enable_all().build().unwrap();
+        for (case, c) in cases.iter().enumerate() {
+            out.emit(&crash_case(&rt, case, c, subsets));
+        }
+        out.finish();
+    }
+
+    // ------------------------------------------------------------------ eviction
+    #[derive(Deserialize)]
+    struct EvictCase {
+        msgs: Vec<Msg>,
+        /// key -> packet that must remain (ts 0 = nothing)
+        r#final: BTreeMap<String, P>,
+        cutoff: u64,
+    }
+    #[derive(Serialize)]
+    struct EvictOut {
+        case: usize,
+        ok: bool,
+        what: String,
+        exp: String,
+        got: String,
+        waited_ms: u64,
+    }
+
+    pub fn run_evict(args: &Args) {
+        let cases: Vec<EvictCase> = read_ndjson(&args.path("in"));
+        let mut out = NdjsonOut::create(&args.path("out"));
+        let seed = seed();
+        let rt = tokio::runtime::Builder::new_multi_thread().worker_threads(4).enable_all().build().unwrap();
+        let eviction = Duration::from_secs(3600);
+        let now = std::time::SystemTime::now().duration_since(std::time::UNIX_EPOCH).unwrap().as_micros() as u64;
+        // model timestamp t  ->  cut-off at start + (t - cutoff) * 10 min + 5 min:  t < cutoff is at least 5 minutes
+        // too old, t >= cutoff stays at least 5 minutes young enough
+        let real_ts = |t: u64, cutoff: u64| -> u64 {
+            let base = now - eviction.as_micros() as u64;
+            (base as i64 + (t as i64 - cutoff as i64) * 600_000_000 + 300_000_000) as u64
+        };
+        let store = rt.block_on(async {
+            VerifZoneStore::in_memory(opts(8, eviction, Duration::from_millis(30), Duration::from_millis(10))).expect("store")
+        });
+        struct Live {
+            key: [u8; 32],
+            built: BTreeMap<Vec<u8>, (u64, u64)>,
+            index_ts: BTreeMap<u64, u64>,
+        }
+        let mut lives = Vec::new();
+        for (case, c) in cases.iter().enumerate() {
+            // one real key per model key and case
+            let mut per_key: BTreeMap<String, Live> = BTreeMap::new();
+            for m in &c.msgs {
+                let sk = secret(seed, case as u64, &m.k);
+                let live = per_key.entry(m.k.clone()).or_insert_with(|| Live { key: *sk.public().as_bytes(), built: BTreeMap::new(), index_ts: BTreeMap::new() });
+                if m.op != "upsert" {
+                    continue;
+                }
+                let z = sk.public().to_z32();
+                let dns = dns_payload(&[Rec { zl: m.k.clone(), rel: "_iroh".into(), ty: "TXT".into(), v: m.pl }], &|_| z.clone());
+                let rts = real_ts(m.ts, c.cutoff);
+                let p = signed_packet(&sk, rts, &dns);
+                live.built.insert(p.as_bytes().to_vec(), (m.ts, m.pl));
+                live.index_ts.insert(rts, m.ts);
+                rt.block_on(store.insert(p)).expect("insert");
+            }
+            lives.push(per_key);
+        }
+        // bounded wait for "eventually": all expired packets gone, every live one still there and indexed
+        let t0 = Instant::now();
+        let judge = |dump: &StoreDump, case: usize| -> Result<(), (String, String, String)> {
+            for (k, live) in &lives[case] {
+                let exp = cases[case].r#final.get(k).map(|p| format!("{}.{}", p.ts, p.pl)).unwrap_or("0.0".into());
+                let row = dump.packets.iter().find(|(kb, _)| kb == &live.key);
+                let got = match row {
+                    None => "0.0".to_string(),
+                    Some((_, Err(e))) => format!("undecodable: {e}"),
+                    Some((_, Ok(b))) => live.built.get(b).map(|(ts, pl)| format!("{ts}.{pl}")).unwrap_or("?".into()),
+                };
+                if got != exp {
+                    let what = if exp != "0.0" && got == "0.0" { "evicted a packet newer than the cut-off" } else if exp == "0.0" { "expired packet still stored" } else { "stored packet" };
+                    return Err((format!("{what} for {k}"), exp, got));
+                }
+                if let Some((_, Ok(b))) = row {
+                    let ts = u64::from_be_bytes(b[96..104].try_into().unwrap());
+                    if !dump.index.iter().any(|(t, kb)| *t == ts && kb == &live.key) {
+                        return Err((format!("stored packet not indexed at its timestamp for {k}"), "indexed".into(), "missing".into()));
+                    }
+                }
+            }
+            Ok(())
+        };
+        let mut verdicts: Vec<Option<(String, String, String)>>;
+        loop {
+            let dump = rt.block_on(store.dump()).expect("dump");
+            verdicts = (0..cases.len()).map(|i| judge(&dump, i).err()).collect();
+            let pending = verdicts.iter().flatten().any(|(w, _, _)| w.starts_with("expired packet still stored"));
+            let definite = verdicts.iter().flatten().any(|(w, _, _)| !w.starts_with("expired packet still stored"));
+            if !pending || definite || t0.elapsed() > Duration::from_secs(20) {
+                break;
+            }
+            std::thread::sleep(Duration::from_millis(20));
+        }
+        let waited_ms = t0.elapsed().as_millis() as u64;
+        for (case, v) in verdicts.into_iter().enumerate() {
+            out.emit(&match v {
+                None => EvictOut { case, ok: true, what: String::new(), exp: String::new(), got: String::new(), waited_ms },
+                Some((what, exp, got)) => EvictOut { case, ok: false, what, exp, got, waited_ms },
+            });
+        }
+        out.finish();
+        drop(store);
     }
 }
